@@ -29,9 +29,48 @@ type c09Params struct {
 type cut struct{ s, e int } // [s, e) of the original text
 
 // splitProject builds the project for a set of nested/disjoint cuts (each either inside or outside every other).
-func splitProject(text string, cuts []cut, finalNL bool, crlfPieces bool) (impl.Project, func(origIndex int) (string, int)) {
+func splitProject(text string, cuts []cut, finalNL bool, crlfPieces bool, dirs ...bool) (impl.Project, func(origIndex int) (string, int)) {
 	pr := impl.Project{Files: map[string]string{}, Root: "root.jst"}
-	name := func(i int) string { return fmt.Sprintf("p%d.jst", i) }
+	useDirs := len(dirs) > 0 && dirs[0]
+	// parent cut (innermost enclosing) and rank among the parent's direct children
+	parentOf := func(i int) int {
+		best := -1
+		for j, o := range cuts {
+			if j != i && o.s <= cuts[i].s && cuts[i].e <= o.e && !(o.s == cuts[i].s && o.e == cuts[i].e) {
+				if best < 0 || (cuts[best].s <= o.s && o.e <= cuts[best].e) {
+					best = j
+				}
+			}
+		}
+		return best
+	}
+	var path func(i int) string
+	path = func(i int) string {
+		if !useDirs {
+			return fmt.Sprintf("p%d.jst", i)
+		}
+		p := parentOf(i)
+		if p < 0 {
+			return fmt.Sprintf("d%d/m.jst", i)
+		}
+		rank := 0
+		for j := range cuts {
+			if j < i && parentOf(j) == p {
+				rank++
+			}
+		}
+		pp := path(p)
+		return pp[:strings.LastIndex(pp, "/")+1] + fmt.Sprintf("t%d.jst", rank)
+	}
+	// the name as written in the INCLUDE directive: relative to the including file's directory
+	written := func(i int) string {
+		p := path(i)
+		if useDirs && parentOf(i) >= 0 {
+			return p[strings.LastIndex(p, "/")+1:]
+		}
+		return p
+	}
+	name := path
 	// render file content for region [s,e) excluding directly nested cuts (replaced by INCLUDE lines)
 	type piece struct {
 		file   string
@@ -62,7 +101,7 @@ func splitProject(text string, cuts []cut, finalNL bool, crlfPieces bool) (impl.
 			}
 			p.segs = append(p.segs, [3]int{pos, c.s, b.Len()})
 			b.WriteString(text[pos:c.s])
-			b.WriteString(indentOf(text, c.s) + "INCLUDE " + name(i) + "\n")
+			b.WriteString(indentOf(text, c.s) + "INCLUDE " + written(i) + "\n")
 			pos = c.e
 		}
 		p.segs = append(p.segs, [3]int{pos, e, b.Len()})
@@ -121,6 +160,7 @@ func workC09(w *run.W) {
 	json.Unmarshal(w.Params, &p)
 	dir := workerDir(w)
 	defer os.RemoveAll(dir)
+	c09Shared(w, dir)
 	var cidx int64
 	for fi, f := range corpusFiles() {
 		raw, _ := os.ReadFile(f)
@@ -195,7 +235,7 @@ func workC09(w *run.W) {
 				return
 			}
 			defer w.End()
-			pr, locate := splitProject(text, cuts, finalNL, crlf)
+			pr, locate := splitProject(text, cuts, finalNL, crlf, strings.HasPrefix(name, "dirs-"))
 			w.Count("cuts", 1)
 			w.Nontrivial(showProject(pr))
 			b := pr.Build(dir)
@@ -269,6 +309,34 @@ func workC09(w *run.W) {
 				}
 			}
 		}
+		// two sub-directories whose pieces include further pieces under the same written name (t0.jst)
+		{
+			type nest struct{ outer, inner cut }
+			var nests []nest
+			for i := range ds.dirs {
+				if ds.kindOf(i) == "JSIGHT" {
+					continue
+				}
+				k1 := ds.children(i)
+				if len(k1) == 0 || !ds.contiguous(k1) {
+					continue
+				}
+				s0, e0 := ds.extent(i, i)
+				s1, e1 := ds.extent(k1[0], k1[len(k1)-1])
+				if s0 < s1 && e1 <= e0 {
+					nests = append(nests, nest{cut{s0, e0}, cut{s1, e1}})
+				}
+			}
+			cnt := 0
+			for a := 0; a < len(nests) && cnt < 12; a++ {
+				for b := a + 1; b < len(nests) && cnt < 12; b++ {
+					if nests[a].outer.e <= nests[b].outer.s {
+						try("dirs-two-nested", []cut{nests[a].outer, nests[a].inner, nests[b].outer, nests[b].inner}, true, false)
+						cnt++
+					}
+				}
+			}
+		}
 		if p.Pairs && len(runs) <= 60 {
 			for i := 0; i < len(runs); i++ {
 				for j := i + 1; j < len(runs); j++ {
@@ -289,10 +357,98 @@ func workC09(w *run.W) {
 	}
 }
 
+// c09Shared: the same piece included from several places (where that is legal), against the document with the piece
+// written out at every place.
+func c09Shared(w *run.W, dir string) {
+	runs := []string{
+		"  GET\n    Path\n    {\"id\": 1}\n    200 any\n",
+		"  GET\n    200 any\n  POST\n    Request any\n    201 any\n",
+		"  Tags @t\n  GET\n    200 any\n",
+		"  DELETE\n    Description\n      some text\n    204 empty\n",
+		"  GET\n    Query\n    {\"q\": 1}\n    200\n      Headers\n      {\"h\": \"1\"}\n      Body @T\n",
+	}
+	parents := [][]string{
+		{"URL /cats/{id}\n", "URL /dogs/{id}\n"},
+		{"URL /cats/{id}\n", "URL /dogs/{id}\n", "URL /pigs/{id}\n"},
+		{"URL /a/{id}\n(\n", "URL /b/{id}\n(\n"},
+	}
+	head := "JSIGHT 0.3\nTAG @t\nTYPE @T\n  {\"x\": 1}\n"
+	respRuns := []string{"  404 any\n  500 @T\n", "  Description\n    shared text\n  200 any\n"}
+	methods := []string{"GET /m1\n", "POST /m2\n", "DELETE /m3/{id}\n"}
+	type cs struct {
+		name, unsplit string
+		pr            impl.Project
+	}
+	var cases []cs
+	for ri, r := range runs {
+		for pi, ps := range parents {
+			var u, sp strings.Builder
+			u.WriteString(head)
+			sp.WriteString(head)
+			for _, p := range ps {
+				u.WriteString(p + r)
+				sp.WriteString(p + "  INCLUDE parts/piece.jst\n")
+				if strings.HasSuffix(p, "(\n") {
+					u.WriteString(")\n")
+					sp.WriteString(")\n")
+				}
+			}
+			cases = append(cases, cs{fmt.Sprintf("shared/run%d/parents%d", ri, pi), u.String(),
+				impl.Project{Root: "root.jst", Files: map[string]string{"root.jst": sp.String(), "parts/piece.jst": r}}})
+		}
+	}
+	for ri, r := range respRuns {
+		var u, sp strings.Builder
+		u.WriteString(head)
+		sp.WriteString(head)
+		for _, m := range methods {
+			u.WriteString(m + r)
+			sp.WriteString(m + "  INCLUDE common.jst\n")
+		}
+		cases = append(cases, cs{fmt.Sprintf("shared/resp%d", ri), u.String(), impl.Project{Root: "root.jst", Files: map[string]string{"root.jst": sp.String(), "common.jst": r}}})
+		// the shared piece is itself included by an intermediate piece that is included twice
+		var sp2 strings.Builder
+		sp2.WriteString(head)
+		for _, m := range methods[:2] {
+			sp2.WriteString(m + "  INCLUDE mid/wrap.jst\n")
+		}
+		var u2 strings.Builder
+		u2.WriteString(head)
+		for _, m := range methods[:2] {
+			u2.WriteString(m + r)
+		}
+		cases = append(cases, cs{fmt.Sprintf("shared/resp%d/through-intermediate", ri), u2.String(),
+			impl.Project{Root: "root.jst", Files: map[string]string{"root.jst": sp2.String(), "mid/wrap.jst": "# wrapper\nINCLUDE inner.jst\n", "mid/inner.jst": r}}})
+	}
+	for i, c := range cases {
+		if !w.Mine(int64(i)) || !w.Begin(c.name) {
+			continue
+		}
+		w.Count("cuts", 1)
+		w.Count("shared_piece_cases", 1)
+		w.Nontrivial(showProject(c.pr))
+		a := impl.BuildMem("root.jst", c.unsplit)
+		b := c.pr.Build(dir)
+		oa, ob := "ERR "+a.Err.Tuple(), "ERR "+b.Err.Tuple()
+		if a.Err == nil && a.Panic == nil {
+			oa = impl.ToJson(&a.J).String()
+		}
+		if b.Err == nil && b.Panic == nil {
+			ob = impl.ToJson(&b.J).String()
+		}
+		if a.Err != nil {
+			w.Violation("C09", "harness:shared-piece-document-invalid", c.name+": the unsplit document is rejected: "+a.Err.Msg+"\n"+c.unsplit, nil)
+		} else if oa != ob {
+			w.Violation("C09", "shared-piece", fmt.Sprintf("%s: a piece included from several places does not give the catalog of the document with the piece written out: %s\n%s", c.name, firstDiff(ob, oa), showProject(c.pr)), map[string]any{"project": c.pr, "unsplit": c.unsplit})
+		}
+		w.End()
+	}
+}
+
 func runC09(c *chk.Ctx) {
 	p := c09Params{AllRuns: !c.Quick(), Pairs: !c.Quick(), MaxBytes: chk.Pick(c, 20000, 200000)}
 	r := c.Pool.Run("c09", p)
 	c.Merge(r, "cuts")
 	c.Cov["params"] = p
-	c.Cov["rule"] = "every INCLUDE-free LF corpus document that is accepted or rule-rejected and whose directive tree the reference automaton confirms x every contiguous run of sibling directives at every level (quick: runs of length 1-2 and the whole sibling list; thorough: all runs and all pairs of disjoint cuts) moved to its own file and replaced by INCLUDE, with and without final newline in the piece, LF and CRLF pieces, plus nested include chains of depth 2 and 3 along a path. Generated models x INCLUDE moves are covered by C02 (catalog equality against the model) and C03/C07 (rule errors inside an INCLUDEd file). non-trivial = distinct split project"
+	c.Cov["rule"] = "every INCLUDE-free LF corpus document that is accepted or rule-rejected and whose directive tree the reference automaton confirms x every contiguous run of sibling directives at every level (quick: runs of length 1-2 and the whole sibling list; thorough: all runs and all pairs of disjoint cuts) moved to its own file and replaced by INCLUDE, with and without final newline in the piece, LF and CRLF pieces, plus nested include chains of depth 2 and 3 along a path, pieces placed in two sub-directories that include further pieces under the same written name, and hand-written documents in which one piece is included from two or three places (also through an intermediate piece). Generated models x INCLUDE moves are covered by C02 (catalog equality against the model) and C03/C07 (rule errors inside an INCLUDEd file). non-trivial = distinct split project"
 }
